@@ -44,3 +44,8 @@ VARIANTS = [
     v("c17-twin-ne", S, "            if xx[jj] == nodata:\n                continue\n            yy[ii] += xx[jj]\n            n_valid += 1",
       "            if xx[jj] != nodata:\n                yy[ii] += xx[jj]\n                n_valid += 1", expect="silent"),
 ]
+
+VARIANTS += [
+    v("c17-window-eq-len", S, "    n = xx.size\n    yy[:] = 0\n", "    n = xx.size\n    if window_size >= n:\n        yy[:] = nodata\n        return\n    yy[:] = 0\n", names="R-SENTINEL-ACC", note="seeded C17a: window == length loses the one complete window"),
+    v("c17-twin-window-gt-len", S, "    n = xx.size\n    yy[:] = 0\n", "    n = xx.size\n    if window_size > n:\n        yy[:] = nodata\n        return\n    yy[:] = 0\n", expect="silent", note="window longer than the series: no complete window exists"),
+]
